@@ -63,6 +63,9 @@ DEVIATIONS: t.Dict[str, t.List[t.Any]] = {
     "dc.env_flags": ["alt"],  # the other spelling of the envelope flags: 0 instead of 2 (seed keys), 3 instead of 1 (public key)
     "dc.name_style": ["unicode"],  # domain / forest names with non-ASCII and non-BMP characters
     "dc.forest": ["shorter", "longer"],
+    "dc.btfn": [False],
+    "dc.server": ["lookup"],  # (client side) no server argument: the DC is found through the SRV lookup (answered by the DNS seam with this DC)
+    "dc.caller": ["in-loop"],  # (client side) the SYNC api is called from code that runs inside an event loop (a coroutine, a web handler, a notebook cell)  # the DC (and its endpoint mapper) does not implement bind time feature negotiation
     "dc.eph": ["zlead"],
     "dc.cache": ["given"],  # (client side) the caller passes a KeyCache of its own - a new, empty one: the conversation is the same  # (client side, DH public-key mode) an ephemeral private key for which the shared secret Z = Y^x mod p begins with a zero octet  # a child domain / second tree: the forest name differs from the domain name (also in length)
 }
@@ -113,6 +116,8 @@ def run_cfg(seed: int, c: Cfg):
     forest = dom if fst is None else (dom[len(dom) // 2 + 1 :] or "f") if fst == "shorter" else "root." + dom
     eph = shape.pop("eph", None)
     own_cache = shape.pop("cache", None)
+    via_lookup = shape.pop("server", None) == "lookup"
+    in_loop = shape.pop("caller", None) == "in-loop"
     if shape.pop("env_flags", None) == "alt":
         shape["envelope_override"] = lambda e: e._replace(flags={2: 0, 1: 3}.get(e.flags, e.flags))
     dc = refdc.DC([rk], now=now if c.op == "protect" else (L0, 31, 31), authorised=c.kind == "seed", domain=dom, forest=forest, sec=c.sec, sig_size=c.sig,
@@ -126,6 +131,8 @@ def run_cfg(seed: int, c: Cfg):
     kw = dict(server="dc.verif.test", username=user, password=pw, auth_protocol="ntlm")
     if own_cache:
         kw["cache"] = dpapi_ng.KeyCache()
+    if via_lookup:
+        del kw["server"]
     ent = seams.Entropy(b"C17")
     if eph == "zlead" and c.kind == "DH" and c.op == "protect":
         ent.script_by_size[rk.priv_len // 8] = [zlead_private(rk, dtyp.target_sd(dtyp.parse_sid_string(sid)), now)]
@@ -139,15 +146,33 @@ def run_cfg(seed: int, c: Cfg):
         return cx
 
     cm = secctx.scripted_client(_client_ctx) if c.sec == "scripted" else contextlib.nullcontext()
-    with transport.network(dc) as hub, cm, seams.entropy(ent) if c.sec == "scripted" else contextlib.nullcontext():
+    import dns.asyncresolver
+    import dns.resolver
+
+    from checks import c20 as _c20
+
+    rec_ = _c20.Recorder([(0, 100, 389, "dc.verif.test.")])
+    dnscm = contextlib.ExitStack()
+    if via_lookup:
+        dnscm.enter_context(seams.patched(dns.resolver, "resolve", rec_.resolve))
+        dnscm.enter_context(seams.patched(dns.asyncresolver, "resolve", rec_.aresolve))
+    with dnscm, transport.network(dc) as hub, cm, seams.entropy(ent) if c.sec == "scripted" else contextlib.nullcontext():
         try:
             if c.op == "unprotect":
                 f = dpapi_ng.ncrypt_unprotect_secret if c.api == "sync" else dpapi_ng.async_ncrypt_unprotect_secret
-                co = f(blob, **kw)
+                mk_ = lambda: f(blob, **kw)  # noqa: E731
             else:
                 f = dpapi_ng.ncrypt_protect_secret if c.api == "sync" else dpapi_ng.async_ncrypt_protect_secret
-                co = f(PT, sid, root_key_identifier=rk.rkid if c.named else None, **kw)
-            v = co if c.api == "sync" else vloop.run(co)
+                mk_ = lambda: f(PT, sid, root_key_identifier=rk.rkid if c.named else None, **kw)  # noqa: E731
+            if c.api == "sync" and in_loop:
+
+                async def _inside():
+                    return mk_()
+
+                v = vloop.run(_inside())
+            else:
+                co = mk_()
+                v = co if c.api == "sync" else vloop.run(co)
             res: t.Tuple[str, t.Any] = ("ok", bytes(v))
         except (transport.BlocksForever, transport.Spin, vloop.Deadlock) as e:
             res = ("blocks", repr(e))
